@@ -352,11 +352,19 @@ impl TRef<'_> {
 }
 
 /// Result of an `Mk` node.
-#[derive(Clone, Debug, PartialEq, Eq, salsa::SalsaValue)]
+#[derive(Clone, Debug, Eq, salsa::SalsaValue)]
 #[cfg_attr(feature = "persist", derive(serde::Serialize, serde::Deserialize))]
 pub struct MkOut<'db> {
     pub structs: Vec<TRef<'db>>,
     pub aux: Vec<u8>,
+}
+
+/// The comparison salsa uses to backdate a creator's result is user code: a callback point.
+impl PartialEq for MkOut<'_> {
+    fn eq(&self, other: &Self) -> bool {
+        point(P::EqOut);
+        self.structs == other.structs && self.aux == other.aux
+    }
 }
 
 // ------------------------------------------------------------------------------------------------
